@@ -351,9 +351,10 @@ async fn pause(n: u32) {
 
 async fn handle(ctx: Arc<Ctx>, srv: usize, conn: usize, mut req: http::Request<hyperdriver::Body>) -> Result<http::Response<ChunkBody>, BoxError> {
     let head = head_of(&req);
-    let id = parse_id(req.uri().path());
-    let spec = id.and_then(|i| ctx.specs.get(&i).cloned());
     let idhdr: Vec<u8> = req.headers().get("x-id").map(|v| v.as_bytes().to_vec()).unwrap_or_default();
+    // requests to the root path ("/", "") carry their id in the header (and body) only
+    let id = parse_id(req.uri().path()).or_else(|| std::str::from_utf8(&idhdr).ok().and_then(|s| s.parse().ok()));
+    let spec = id.and_then(|i| ctx.specs.get(&i).cloned());
     let (hdelay, rchunk, ryield) = spec.as_ref().map(|s| (s.hdelay, s.rchunk, s.ryield)).unwrap_or((0, 0, false));
     let mut g = SawGuard { ctx: ctx.clone(), id, srv, conn, head, bl: 0, bh: FNV0, complete: false };
     let builder = http::Response::builder()
